@@ -1611,12 +1611,20 @@ def remove_stns_sinex(sinex, sites):
             if line.startswith(' '):
                 cols = line.split()
                 row = cols[0]
+                # Elements omitted from the block (e.g. by
+                # remove_matrixzeros_sinex) are zero, so each value is
+                # stored at the position given by its column number
+                if row not in vcv:
+                    if matrix == 'lower':
+                        vcv[row] = ['0'] * int(row)
+                    else:
+                        vcv[row] = ['0'] * (int(old_num_params) - int(row) + 1)
+                if matrix == 'lower':
+                    first = int(cols[1]) - 1
+                else:
+                    first = int(cols[1]) - int(row)
                 for i in range(2, len(cols)):
-                    try:
-                        vcv[row].append(cols[i])
-                    except KeyError:
-                        vcv[row] = []
-                        vcv[row].append(cols[i])
+                    vcv[row][first + i - 2] = cols[i]
         block_end = solution_matrix_estimate[-1]
         del solution_matrix_estimate
         sub_vcv = {}
